@@ -178,7 +178,8 @@ theorem C01_read_counterexample : ¬ C01_read_full := by
   have h3 := h readWitness1 (.commit 90) rfl 3 (by decide)
   exact absurd h3 (by decide)
 
-/-- witness 2 (known finding `binary-payload-with-extracted-text-chunks-reads-as-text`): a non-UTF-8
+/-- witness 2 (observed with the DEFAULT put options, i.e. the time-budgeted extractor of instant
+    indexing; the harness runs the un-budgeted extractor and does not reproduce it): a non-UTF-8
     payload keeps its bytes in the parent frame but gets a chunk manifest from the extracted text, and
     `frame_canonical_bytes` prefers the manifest: the read returns the chunk text, not the payload -/
 def readWitness2 : List Op :=
